@@ -12,6 +12,8 @@ use std::sync::{Condvar, Mutex};
 #[derive(Clone, Debug, PartialEq)]
 pub enum Pending {
     Start,
+    /// a logged non-synchronising action that is nevertheless a scheduling point (slot accesses)
+    Plain(String),
     Sync(Ev),
     Relock { mutex: usize },
     Join(Vec<String>),
@@ -172,6 +174,7 @@ impl Sched {
             .iter()
             .filter(|(_, p)| match p {
                 Pending::Start => true,
+                Pending::Plain(_) => true,
                 Pending::Sync(Ev::Lock { addr }) => !inner.owner.contains_key(addr),
                 Pending::Sync(_) => true,
                 Pending::Relock { mutex } => !inner.owner.contains_key(mutex),
@@ -216,6 +219,7 @@ impl Sched {
             let mut runs = true;
             let text = match &p {
                 Pending::Start => "start".to_string(),
+                Pending::Plain(t) => t.clone(),
                 Pending::Join(ts) => format!("join {}", ts.join(",")),
                 Pending::Relock { mutex } => {
                     inner.owner.insert(*mutex, u.clone());
@@ -343,7 +347,15 @@ impl Sched {
         self.point(&me, Pending::Join(targets));
     }
 
-    /// a line logged by the baton holder (handler calls, slot accesses, write closure)
+    /// a logged action that is also a scheduling point: other threads may run between the preceding synchronisation
+    /// operation of this thread and the action (plain slot accesses are not atomic with the cursor operations around them)
+    pub fn sync_log(&self, text: String) {
+        if let Some(me) = my_tid() {
+            self.point(&me, Pending::Plain(text));
+        }
+    }
+
+    /// a line logged by the baton holder (handler calls, write closure)
     pub fn log(&self, text: String) {
         if let Some(me) = my_tid() {
             let mut g = self.m.lock().unwrap();
